@@ -28,13 +28,13 @@ type Suite struct {
 var registry = map[string][]Suite{}
 
 type Output struct {
-	Property string           `json:"property"`
-	Tier     string           `json:"tier"`
-	Seed     int64            `json:"seed"`
+	Property string            `json:"property"`
+	Tier     string            `json:"tier"`
+	Seed     int64             `json:"seed"`
 	Suites   map[string]*Stats `json:"suites"`
-	Findings []Finding        `json:"findings"`
-	Known    map[string]int   `json:"known_hits"`
-	WallS    float64          `json:"wall_s"`
+	Findings []Finding         `json:"findings"`
+	Known    map[string]int    `json:"known_hits"`
+	WallS    float64           `json:"wall_s"`
 	Rules    map[string]string `json:"rules"`
 }
 
@@ -65,6 +65,10 @@ func main() {
 		os.Exit(2)
 	}
 	defer md.Close()
+	if *out != "" {
+		crashFile = *out + ".running"
+		defer os.Remove(crashFile)
+	}
 	o := &Output{Property: *prop, Tier: *tier, Seed: *seed, Suites: map[string]*Stats{}, Known: map[string]int{}, Rules: map[string]string{}}
 	knownSigs := map[string]int{}
 	for _, k := range strings.Split(*known, ",") {
